@@ -342,3 +342,54 @@ type BG struct {
 	K []byte `gorm:"primaryKey"`
 	Base
 }
+
+// ---------------- family D: gorm's CONVENTIONS, no foreignKey / references tags ----------------
+// ID uint primary key by convention; foreign keys found by name (DPID, TargetID, BossID); default
+// many2many join keys; a SELF-referential many2many (Friends); a polymorphic relation whose columns are
+// renamed by polymorphicType / polymorphicId; a relation inside an EMBEDDED struct (Info.Buddy);
+// has-one field by value, has-many with pointer elements.
+type DInfo struct {
+	BuddyID *uint
+	Buddy   *DT
+}
+type DP struct {
+	ID uint
+	Base
+	TargetID *uint
+	Target   *DT
+	BossID   *uint
+	Boss     *DP
+	Team     []DP `gorm:"foreignKey:BossID"`
+	One      DO
+	Many     []*DM
+	Tags     []DG  `gorm:"many2many:dp_tags"`
+	Friends  []*DP `gorm:"many2many:dp_friends"`
+	Notes    []DN  `gorm:"polymorphic:Owner;polymorphicValue:xp;polymorphicType:Kind;polymorphicId:OID"`
+	Info     DInfo `gorm:"embedded;embeddedPrefix:info_"`
+}
+type DO struct {
+	ID int64
+	Base
+	DPID  *uint
+	Owner *DP `gorm:"foreignKey:DPID"`
+}
+type DM struct {
+	ID int64
+	Base
+	DPID  *uint
+	Owner *DP `gorm:"foreignKey:DPID"`
+}
+type DT struct {
+	ID uint
+	Base
+}
+type DG struct {
+	ID uint
+	Base
+}
+type DN struct {
+	ID int64
+	Base
+	OID  *uint
+	Kind string
+}
